@@ -72,9 +72,29 @@ func diffWordsToRunes(doc *indexedDocument, start, end int) []rune {
 	runes := make([]rune, 0, end-start)
 
 	for _, t := range doc.Tokens[start:end] {
-		runes = append(runes, rune(t.ID))
+		runes = append(runes, idToRune(t.ID))
 	}
 	return runes
+}
+
+// Token ids travel through go-diff as runes and come back through
+// string([]rune), which replaces surrogate code points (0xD800-0xDFFF) by
+// U+FFFD. Ids from 0xD800 on are therefore shifted past the surrogate range.
+const surrogateMin, surrogateMax = 0xD800, 0xDFFF
+
+func idToRune(id tokenID) rune {
+	r := rune(id)
+	if r >= surrogateMin {
+		r += surrogateMax - surrogateMin + 1
+	}
+	return r
+}
+
+func runeToID(r rune) tokenID {
+	if r > surrogateMax {
+		r -= surrogateMax - surrogateMin + 1
+	}
+	return tokenID(r)
 }
 
 // diffRunesToWords rehydrates the text in a diff from a string of word hashes to real words of text.
@@ -85,7 +105,7 @@ func diffRunesToWords(diffs []diffmatchpatch.Diff, dict *dictionary) []diffmatch
 		var sb strings.Builder
 
 		for i, r := range chars {
-			sb.WriteString(dict.getWord(tokenID(r)))
+			sb.WriteString(dict.getWord(runeToID(r)))
 			if (i + 1) < len(chars) {
 				sb.WriteByte(' ')
 			}
